@@ -41,9 +41,23 @@ UV_GRID = np.array([[0.1, 0.2], [0.5, 0.5], [0.9, 0.3], [0.3, 0.95], [0.01, 0.02
 
 
 def observe(model, kind, data=None, seed=12345, state=999, with_dict=True):
-    """Observation record (JSON-able, canonical).  Never mutates ``model``."""
-    m = copy.deepcopy(model)
+    """Observation record (JSON-able, canonical).  The model itself is queried - not a deep
+    copy, which would route the observation through the model's own copy/pickle protocol and
+    hide a defect of that protocol in both sides of a comparison.  Only ``random_state`` is
+    touched (for the seeded samples) and put back afterwards."""
+    m = model
     rec = {'class': type(model).__module__ + '.' + type(model).__name__}
+    saved_rs = getattr(model, 'random_state', None)
+    try:
+        return _observe(m, kind, data, seed, state, with_dict, rec)
+    finally:
+        try:
+            model.random_state = saved_rs
+        except Exception:
+            pass
+
+
+def _observe(m, kind, data, seed, state, with_dict, rec):
     with sterile(state), Poison('zero'):
         if kind == 'uni':
             inst = getattr(m, '_instance', None)
